@@ -39,7 +39,8 @@ R = {
     "C19-r5m1": ("detected", "-"), "C19-r5m2": ("detected", "-"),
     "C20-r5m1": ("detected", "-"), "C20-r5m2": ("detected", "-"),
     # ---------------------------------------------------------------- round 6
-    "C01-r6m1": ("detected", "-"), "C01-r6m2": ("detected", "-"),
+    "C01-r6m1": ("detected", "-"),
+    "C01-r6m2": ("detected only through a shape side effect of the then unrepaired direct solve (c259bca); missed afterwards", "C01 clustered shifts: every column has the shift of column 0 times (1 + 3e-6 c) + 4e-9 c (all within 1e-5 relative, none equal), direct and Krylov methods, E and E + M"),
     "C02-r6m1": ("missed", "C02 plane ezero: every shift exactly zero (E and M given), all first- and second-order blocks"),
     "C02-r6m2": ("detected", "-"),
     "C03-r6m1": ("detected", "-"), "C03-r6m2": ("detected", "-"),
